@@ -503,6 +503,20 @@ def spell_line(rng, specs, init_spec):
     return argv
 
 
+def ascii_only_dash_tokens(argv):
+    """Non-ASCII text is generated only in plain tokens and after '=': the model's strings are
+    UTF-8 bytes, so [token[:2]], [len(token) > 2] and the per-character split of a cluster would
+    differ from Python's code points on a dash-token such as '-f\u00e9'.  (Documented limit.)"""
+    out = []
+    for t in argv:
+        if t.startswith("-") and any(ord(ch) > 126 for ch in t.partition("=")[0] if True) :
+            head = t.partition("=")[0]
+            if any(ord(ch) > 126 for ch in head):
+                t = "".join(ch if ord(ch) <= 126 else "e" for ch in head) + t[len(head):]
+        out.append(t)
+    return out
+
+
 def mutate_line(rng, argv, alpha):
     argv = list(argv)
     for _ in range(rng.choice([0, 1, 1, 2])):
@@ -519,7 +533,7 @@ def mutate_line(rng, argv, alpha):
         elif argv:
             i = rng.randrange(len(argv))
             argv.insert(i, argv[i])
-    return argv
+    return ascii_only_dash_tokens(argv)
 
 
 FUZZ_CHARS = "-=abnvT5e x{}%_A\n"
@@ -851,7 +865,8 @@ def gen_invocation(rng, specs, dash_values=False, max_calls=3, clusters=True):
             last = k == len(occs) - 1
             nxt_pos = (not last) and "cluster" not in occs[k + 1] and occs[k + 1]["form"] == "pos"
             if (last and idx < len(calls) - 1) or nxt_pos:
-                occs[k] = dict(o, form="eq", val={"s": "ov"})
+                a = c["args"][o["arg"]]
+                occs[k] = dict(o, form="eq", val={"s": "7" if a["kind"] == "KInt" else "ov"})
     return calls
 
 
